@@ -130,7 +130,7 @@ def run(prog, chk):
         need = ["stdoutFds[1]", "stderrFds[1]", "stdinFds[0]"]
         miss = []
         for t in need:
-            cl = [c for c in closes if q.no_casts(op.r(q.call_args(op, c)[0])) == t and q.reaches(op, c, r) and not any(q.reaches(op, c, e) for e in ex)]
+            cl = [c for c in closes if q.no_casts(q.xr(op, q.call_args(op, c)[0])).strip("()") == t and q.reaches(op, c, r) and not any(q.reaches(op, c, e) for e in ex)]
             if not cl:
                 miss.append(t)
         st = C.nstores(op)
